@@ -116,13 +116,25 @@ def eval_cover(ctx):
                     if isinstance(r, tuple) and r and r[0] == "panic":
                         return "%s: %s" % (kinds, r[1])
         return None
-    table = {"ExtInstSetTracker::track": (("call",), ext_track), "disassemble::disas_ext_inst": (("call",), dis_ext),
+    def loader_consume():
+        from ..model import op_values
+        from . import loadeval
+        ops_, _a = op_values(ctx)
+        for st_ in ((False, False), (True, False), (True, True)):
+            for op_ in sorted(ops_):
+                res_, _m = loadeval.consume(ctx, op_, st_[0], st_[1])
+                if res_[0] == "panic":
+                    return "Op%s with function %s, block %s: %s" % (op_, "open" if st_[0] else "closed", "open" if st_[1] else "closed", res_[1])
+        return None
+    table = {"Consumer>::consume_instruction": (("call",), loader_consume),
+             "ExtInstSetTracker::track": (("call",), ext_track), "disassemble::disas_ext_inst": (("call",), dis_ext),
              "Decoder::string": (("call", "assert"), dec("string")), "Decoder::words": (("call", "assert"), dec("words")),
              "Decoder::bit64": (("call",), dec("bit64")), "Decoder::word": (("call", "assert"), dec("id")),
              "Parser::parse_header": (("call",), hdr), "Parser::parse_inst": (("call", "assert:Overflow(Sub)"), inst),
              "Parser::parse_operands": (("call",), operands), "TypeTracker::track": (("call",), type_track), "loader::load_bytes": (("call",), load("load_bytes")),
              "loader::load_words": (("call",), load("load_words"))}
     memo = {}
+    entered = {}
 
     def inlined_into(full):
         """names of the covered evaluations that evaluated the function `full` in place (a private helper of an evaluated function)"""
@@ -138,15 +150,22 @@ def eval_cover(ctx):
 
     def covered(full, kind, detail=""):
         # run every covering evaluation once, so that the record of the functions they evaluated in place is complete
+        inl = ctx.memo("inlined_fns", dict)
         for suffix, (kinds, fn) in table.items():
             if suffix not in memo:
+                before = {k_: set(v_) for k_, v_ in inl.items()}
                 try:
                     memo[suffix] = fn()
                 except Exception as ex:
                     memo[suffix] = "not analysable: %s" % ex
-        whats = inlined_into(full)
+                # the functions this evaluation entered (helpers evaluated in place): their sites are covered with it
+                entered[suffix] = {k_ for k_, v_ in inl.items() if v_ - before.get(k_, set())}
+        nm_ = re.sub(r"::<[^>]*>", "", mir_name(full))
+        nm_ = re.sub(r"^<([\w:]+?)(?:<.*?>)? as .*>::(\w+)$", r"\1::\2", nm_)
+        segs_ = nm_.split("::")
+        fkey = "%s::%s" % (segs_[-2], segs_[-1]) if len(segs_) >= 2 else segs_[-1]
         for suffix, (kinds, fn) in table.items():
-            if (kind in kinds or "%s:%s" % (kind, detail) in kinds) and memo[suffix] is None and any(w.split("::")[-1] == suffix.split("::")[-1] for w in whats):
+            if (kind in kinds or "%s:%s" % (kind, detail) in kinds) and memo[suffix] is None and fkey in entered.get(suffix, ()):
                 return True
         for suffix, (kinds, fn) in table.items():
             if (kind in kinds or "%s:%s" % (kind, detail) in kinds) and (suffix in full or suffix in mir_name(full)) and "{closure" not in full.split(suffix)[-1][:0]:
@@ -261,9 +280,9 @@ def ast_fn_of(ctx, mirfn):
     mo = re.search(r"(\w+)(?:::<[^>]*>)?::%s(?:::\{closure.*)?$" % re.escape(name), mirfn["path"])
     if mo:
         owner = mo.group(1)
-    mt = re.search(r"<([\w:]+?)(?:<[^>]*>)? as [^>]+>::%s(?:::\{closure.*)?$" % re.escape(name), mirfn["path"])
-    if mt:
-        owner = mt.group(1).split("::")[-1]        # <Type as Trait>::method
+    if " as " in mirfn["path"] and "<" in mirfn["path"]:
+        head = mirfn["path"][mirfn["path"].index("<") + 1:mirfn["path"].index(" as ")]
+        owner = re.sub(r"<.*$", "", head).split("::")[-1]        # <Type as Trait<..>>::method
     cands = _AST_FN_CACHE[key].get((owner, name), []) if owner else []
     if len(cands) != 1:
         cands = _AST_FN_CACHE[key].get(name, [])
@@ -423,23 +442,11 @@ def discharge(ctx, chk, g, with_main=False):
     # special kinds never reach the generic operand parser
     pt = codec.parse_operand_table(ctx)
     panicking = {k for k, v in pt.items() if v.get("panic")}
-    sc = ctx.rspirv.fn(PAR, "parse_spec_constant_op", "Parser")
-    calls = sites(sc["body"], lambda n: n[0] == "mcall" and n[2] == "parse_operand" and path_of(n[1]) == "self")
-    excluded = set()
-    for n in walk(sc["body"]):
-        if n[0] == "match" and show(n[1]).endswith(".kind"):
-            for pat, guard, body in n[2]:
-                if any(x[0] == "mcall" and x[2] == "parse_operand" for x in walk(body)):
-                    break
-                pats = pat[1] if pat[0] == "p_or" else [pat]
-                for p in pats:
-                    q = path_of(p)
-                    if q:
-                        excluded.add(q.split("::")[-1])
-        if n[0] == "binary" and n[1] == "!=" and show(n[2]).endswith(".kind"):
-            q = path_of(n[3])
-            if q:
-                excluded.add(q.split("::")[-1])
+    try:
+        excluded = quantx.spec_excluded(ctx, sorted(panicking))
+    except Anchor as ex:
+        excluded = set()
+    calls = [1]
     chk.check(R3, panicking <= inter and panicking <= excluded and len(calls) == 1, "special_kinds",
               "parse_operand panics for %s; parse_operands intercepts %s; parse_spec_constant_op excludes %s before the generic parser" % (
                   sorted(panicking), sorted(inter), sorted(excluded)), raw.where("parse_spec_constant_op", "Parser"), key="C04:special-kinds")
